@@ -9,6 +9,7 @@ Call graph: static callees + dyn calls expanded to every in-crate implementor + 
 import json
 import os
 import pickle
+import re
 from collections import defaultdict
 
 
@@ -568,6 +569,9 @@ class Facts:
         self.types = {t["p"]: t for t in data["types"]}
         self.consts = {c["p"]: c for c in data["consts"]}
         self._cg = None
+        # new private helpers (not in tables/known_functions.json) are analysed inline in their callers
+        import inline
+        inline.absorb(self)
 
     # ---- lookup -------------------------------------------------------------------------
     def fn(self, suffix):
@@ -651,8 +655,18 @@ def const_eval(n, facts=None):
         c = facts.consts.get(n["r"]["p"])
         if c is not None:
             return const_eval(c["init"], facts)
+    if k == "path" and n["r"].get("k") == "def":
+        m = _INT_LIMIT.match(n["r"].get("p", ""))
+        if m:
+            ty, which = m.group(1), m.group(2)
+            bits = {"size": 64}.get(ty[1:], None) or int(ty[1:])
+            if ty[0] == "u":
+                return 0 if which == "MIN" else (1 << bits) - 1
+            return -(1 << (bits - 1)) if which == "MIN" else (1 << (bits - 1)) - 1
     return None
 
+
+_INT_LIMIT = re.compile(r"^core::num::<impl ([iu](?:8|16|32|64|128|size))>::(MIN|MAX)$")
 
 ASYNC_RECEIVERS = ("std::thread::Builder::spawn", "std::thread::spawn", "schedule_with_delay", "tokio::spawn",
                    "tokio::task::spawn", "spawn_unchecked")
